@@ -753,6 +753,96 @@ pub fn orswot_overtake(out: &mut String, rng: &mut Rng, cases: usize) {
     }
 }
 
+/// Map analogue of `orswot_overtake` (C05, C08, C03, C09, C20 at key level): replica 0 updates a few keys, replica 1 has seen a
+/// prefix and issues SEVERAL key removes – from `get(k)` contexts or from ONE unchanged `read_ctx()` (identical contexts for
+/// different keys); late replicas receive the removes BEFORE the updates they observed and hold them pending; states are
+/// exchanged by merge in both directions – in particular a replica that HAS the updates but never saw the remove merges a
+/// replica that only holds the remove as pending – then the updates arrive as ops or inside merged states.
+pub fn map_overtake(out: &mut String, rng: &mut Rng, cases: usize) {
+    let tys: [&'static str; 3] = ["map_mvreg", "map_orswot", "map_map_mvreg"];
+    for case in 0..cases {
+        let ty = tys[case % 3];
+        let n = 3 + rng.below(2);
+        writeln!(out, "T {} {}", ty, n).unwrap();
+        let up = |rng: &mut Rng, k: usize| -> String {
+            match ty {
+                "map_mvreg" => format!("up {} write {}", k, 5 + 2 * rng.below(2)),
+                "map_orswot" => format!("up {} add {}", k, rng.below(3)),
+                _ => format!("up {} up {} write {}", k, rng.below(2), 5 + 2 * rng.below(2)),
+            }
+        };
+        let mut id = 0;
+        let mut ups: Vec<usize> = vec![];
+        for _ in 0..(1 + rng.below(3)) {
+            let k = rng.below(3);
+            writeln!(out, "G 0 o{} {}", id, up(rng, k)).unwrap();
+            ups.push(id);
+            id += 1;
+        }
+        let seen = 1 + rng.below(ups.len());
+        for a in ups.iter().take(seen) {
+            writeln!(out, "D 1 o{}", a).unwrap();
+        }
+        if rng.chance(1, 3) {
+            let k = rng.below(3);
+            writeln!(out, "G 1 o{} {}", id, up(rng, k)).unwrap();
+            id += 1;
+        }
+        let mut rms: Vec<usize> = vec![];
+        for _ in 0..(2 + rng.below(2)) {
+            let k = rng.below(3);
+            if rng.chance(1, 2) {
+                writeln!(out, "G 1 o{} rmread {}", id, k).unwrap();
+            } else {
+                writeln!(out, "G 1 o{} rm {}", id, k).unwrap();
+            }
+            rms.push(id);
+            id += 1;
+        }
+        for r in 2..n {
+            let mut order = rms.clone();
+            for i in (1..order.len()).rev() {
+                order.swap(i, rng.below(i + 1));
+            }
+            let take = 1 + rng.below(order.len());
+            for o in order.iter().take(take) {
+                writeln!(out, "D {} o{}", r, o).unwrap();
+                if rng.chance(1, 6) {
+                    writeln!(out, "D {} o{}", r, o).unwrap();
+                }
+            }
+        }
+        for _ in 0..(1 + rng.below(3)) {
+            let a = rng.below(n);
+            let b = 2 + rng.below(n - 2);
+            // (no MU / AB / E on Map: whole-state oracles would fire on the known nested-content findings; the key level is
+            // compared with the specification of the knowledge set after every command)
+            match rng.below(5) {
+                0 | 1 => writeln!(out, "M {} {}", a, b).unwrap(),
+                2 | 3 => writeln!(out, "M {} {}", b, a).unwrap(),
+                _ => writeln!(out, "ML {} {} {}", a, b, rng.below(n)).unwrap(),
+            }
+        }
+        for r in 2..n {
+            if rng.chance(1, 3) {
+                writeln!(out, "M {} 0", r).unwrap();
+            } else {
+                for a in ups.iter() {
+                    writeln!(out, "D {} o{}", r, a).unwrap();
+                }
+            }
+        }
+        for r in 0..n {
+            for o in 0..id {
+                writeln!(out, "D {} o{}", r, o).unwrap();
+            }
+        }
+        // no `E` (whole-state convergence) here: nested contents of Map are a known finding; the key level is compared with
+        // the specification of the knowledge set after every command
+        writeln!(out, "EQ 0 1").unwrap();
+    }
+}
+
 fn force_key(args: &str, rng: &mut Rng) -> String {
     // concentrate the action on key 0 (80 %)
     let mut t: Vec<String> = args.split(' ').map(|x| x.to_string()).collect();
@@ -1633,6 +1723,7 @@ pub fn main(args: &[String]) {
         }
         "merkle_small_all_orders" => crate::gen_merkle::small_all_orders(&mut out, &mut rng, cases),
         "map_scenario" => map_scenario(&mut out, &mut rng, cases),
+        "map_overtake" => map_overtake(&mut out, &mut rng, cases),
         "map_vm" => map_vm(&mut out, &mut rng, cases),
         // `cases` is the script length here (quick 4, thorough 5)
         "orswot_exhaustive" => orswot_exhaustive(&mut out, cases.clamp(1, 6)),
